@@ -53,6 +53,30 @@ pub fn corpus(thorough: bool) -> Vec<Program> {
         },
         Stmt::Res(rel(uri_lit(&["a"]), vec![E::Ann(vec![], Box::new(var("x")), Some("tags: [t2, t4, t3, t0]".into()))])),
     ]));
+    // several contents of one status (and of no status) that differ in media type, description
+    // and headers: whatever the response takes from which, it takes it in every process
+    {
+        let c = |status: Option<u64>, media: &str, desc: &str, h: &str| {
+            let mut tags = vec![(Meta::Media, E::Str(media.into())), (Meta::Headers, obj(vec![prop(h, E::Prim(Prim::Str))]))];
+            if let Some(s) = status {
+                tags.insert(0, (Meta::Status, E::Num(s)));
+            }
+            E::Ann(vec![], Box::new(E::Paren(Box::new(E::Content(tags, Some(Box::new(obj(vec![prop("v", E::Prim(Prim::Num))]))))))), Some(format!("description: {desc}")))
+        };
+        out.push(single(vec![Stmt::Res(rel(
+            uri_lit(&["multi"]),
+            vec![xfer(
+                Method::Get,
+                E::Op(Op::Range, vec![
+                    c(Some(200), "application/json", "as json", "X-A"),
+                    c(Some(200), "text/plain", "as text", "X-B"),
+                    c(Some(200), "application/xml", "as xml", "X-C"),
+                    c(None, "application/json", "fallback json", "X-D"),
+                    c(None, "text/csv", "fallback csv", "X-E"),
+                ]),
+            )],
+        ))]));
+    }
     // a program built for this property: >= 3 entries in every collection
     let ex = "examples: {e3: u3, e1: u1, e2: u2}, tags: [c, a, b]";
     out.push(Program {
@@ -641,7 +665,13 @@ fn judge_history(history: &[&Vec<(String, String)>], sink: Option<&mut Sink>) ->
                 .unwrap_or_else(|_| "<panic in the stand-alone compilation>".into())
         })
     };
-    for t in before {
+    // the earlier programs are compiled in another directory and then where the subject lives (state keyed by addresses or positions must not leak across locations)
+    for t in before.iter() {
+        let moved: Vec<(String, String)> = t.iter().map(|(n, x)| (format!("elsewhere/{n}"), x.clone())).collect();
+        heartbeat();
+        tape::set_tape(vec![]);
+        let _ = guard(|| pipeline::run(&pipeline::files_of(&moved), "elsewhere/main.oal"));
+        let _ = tape::take_log();
         let _ = run_under(&pipeline::files_of(t), vec![]);
     }
     let after = run_under(&pipeline::files_of(last), vec![]).0;
